@@ -214,4 +214,46 @@ theorem total_grid_symmetric_not_enough :
     isInt ((c4.apply (gridK (3, 2, 1) (1, 0, 0))).y * 2) = false := by
   decide +kernel
 
+/-! ## T7 — the sign of time reversal in the star of a K-point.  The model's `Sym.apply` is the code's rule
+    `k ↦ iTR · iInv · (k M)`; with it the star relation of a group is an equivalence and equivalent points are merged
+    with orbit weights (C06: `getKList_orbit_cover_of_group`).  `dropTR` is the rule without the TR sign.
+    (a) If the group contains the inversion, both rules give the same set of images of every k
+    (`star_images_same_with_inversion`) - this is why non-magnetic groups and groups with inversion cannot see the
+    difference.  (b) For the magnetic group generated by C3z and C2y·TR on the hexagonal lattice (no inversion, no pure
+    TR) and a 3x3 K-grid, the rule without the sign puts the inequivalent points K=(1/3,1/3) and K'=(2/3,2/3) into one
+    star and changes the weights (`dropping_TR_sign_merges_valleys`). -/
+
+theorem star_images_same_with_inversion (syms : List Sym)
+    (hinv : ∀ s ∈ syms, ∃ t ∈ syms, t.tr = s.tr ∧ ∀ k : V3, t.apply k = negV (s.apply k)) (k v : V3) :
+    (∃ s ∈ syms, v = (dropTR s).apply k) ↔ (∃ s ∈ syms, v = s.apply k) :=
+  images_same_with_inversion syms hinv k v
+
+/-- C3z, C2y·TR and their products, as reduced integer matrices read from the code's PointGroup (hexagonal lattice) -/
+def magSyms : List Sym :=
+  [⟨-1, 1, 0, -1, 0, 0, 0, 0, 1, false, false⟩, ⟨-1, 1, 0, 0, 1, 0, 0, 0, -1, false, true⟩,
+   ⟨0, -1, 0, 1, -1, 0, 0, 0, 1, false, false⟩, ⟨0, -1, 0, -1, 0, 0, 0, 0, -1, false, true⟩,
+   ⟨1, 0, 0, 0, 1, 0, 0, 0, 1, false, false⟩, ⟨1, 0, 0, 1, -1, 0, 0, 0, -1, false, true⟩]
+
+theorem dropping_TR_sign_merges_valleys :
+    groupCheck magSyms = true ∧ symmetricGrid magSyms (3, 3, 1) = true ∧
+    starIdx magSyms (3, 3, 1) (1, 1, 0) = [(1, 1, 0)] ∧
+    starIdx (magSyms.map dropTR) (3, 3, 1) (1, 1, 0) = [(1, 1, 0), (2, 2, 0)] ∧
+    (getKList magSyms (3, 3, 1) true).map KPoint.factor = [1/9, 2/3, 1/9, 1/9] ∧
+    (getKList (magSyms.map dropTR) (3, 3, 1) true).map KPoint.factor = [1/9, 1/3, 2/9, 1/3] := by
+  decide +kernel
+
+/-- non-vacuity of (a): the group {E, I, TR, I·TR} -/
+example : ∀ s ∈ ([⟨1, 0, 0, 0, 1, 0, 0, 0, 1, false, false⟩, ⟨1, 0, 0, 0, 1, 0, 0, 0, 1, true, false⟩,
+      ⟨1, 0, 0, 0, 1, 0, 0, 0, 1, false, true⟩, ⟨1, 0, 0, 0, 1, 0, 0, 0, 1, true, true⟩] : List Sym),
+    ∃ t ∈ ([⟨1, 0, 0, 0, 1, 0, 0, 0, 1, false, false⟩, ⟨1, 0, 0, 0, 1, 0, 0, 0, 1, true, false⟩,
+      ⟨1, 0, 0, 0, 1, 0, 0, 0, 1, false, true⟩, ⟨1, 0, 0, 0, 1, 0, 0, 0, 1, true, true⟩] : List Sym),
+      t.tr = s.tr ∧ ∀ k : V3, t.apply k = negV (s.apply k) := by
+  intro s hs
+  simp only [List.mem_cons, List.not_mem_nil, or_false] at hs
+  rcases hs with rfl | rfl | rfl | rfl
+  · exact ⟨⟨1, 0, 0, 0, 1, 0, 0, 0, 1, true, false⟩, by simp, rfl, fun k => by simp [Sym.apply, Sym.sign, negV]⟩
+  · exact ⟨⟨1, 0, 0, 0, 1, 0, 0, 0, 1, false, false⟩, by simp, rfl, fun k => by simp [Sym.apply, Sym.sign, negV]⟩
+  · exact ⟨⟨1, 0, 0, 0, 1, 0, 0, 0, 1, true, true⟩, by simp, rfl, fun k => by simp [Sym.apply, Sym.sign, negV]⟩
+  · exact ⟨⟨1, 0, 0, 0, 1, 0, 0, 0, 1, false, true⟩, by simp, rfl, fun k => by simp [Sym.apply, Sym.sign, negV]⟩
+
 end WB.C03
